@@ -12,10 +12,12 @@ static mut CUR: (usize, &str) = (0, "");
 /// operations to leave out for the first processed vector (they crashed in a previous run)
 static mut SKIPOPS: Vec<String> = Vec::new();
 static mut FIRST: usize = usize::MAX;
+/// operations left out for every vector (they crashed or hung many times already)
+static mut DEADOPS: Vec<String> = Vec::new();
 fn want(i: usize, op: &str) -> bool {
     #[allow(static_mut_refs)]
     unsafe {
-        !(i == FIRST && SKIPOPS.iter().any(|o| o == op))
+        !(i == FIRST && SKIPOPS.iter().any(|o| o == op)) && !DEADOPS.iter().any(|o| o == op)
     }
 }
 
@@ -25,6 +27,26 @@ extern "C" fn on_segv(_sig: i32) {
         let msg = format!("{{\"crash\":{i},\"op\":\"{op}\"}}\n");
         libc::write(1, msg.as_ptr().cast(), msg.len());
         libc::_exit(42);
+    }
+}
+
+/// An operation that does not return is data as well: every operation re-arms a 1 s timer of
+/// the process's own CPU time (independent of the load of the machine).
+extern "C" fn on_vtalrm(_sig: i32) {
+    unsafe {
+        let (i, op) = CUR;
+        let msg = format!("{{\"crash\":{i},\"op\":\"{op}\",\"hang\":1}}\n");
+        libc::write(1, msg.as_ptr().cast(), msg.len());
+        libc::_exit(42);
+    }
+}
+fn arm() {
+    unsafe {
+        let it = libc::itimerval {
+            it_interval: libc::timeval { tv_sec: 0, tv_usec: 0 },
+            it_value: libc::timeval { tv_sec: 1, tv_usec: 0 },
+        };
+        libc::setitimer(libc::ITIMER_VIRTUAL, &it, std::ptr::null_mut());
     }
 }
 
@@ -84,6 +106,7 @@ fn set_cur(i: usize, op: &'static str) {
     unsafe {
         CUR = (i, op);
     }
+    arm();
 }
 
 macro_rules! op {
@@ -241,6 +264,7 @@ fn main() {
             libc::signal(libc::SIGBUS, on_segv as usize);
             libc::signal(libc::SIGABRT, on_segv as usize);
             libc::signal(libc::SIGILL, on_segv as usize);
+            libc::signal(libc::SIGVTALRM, on_vtalrm as usize);
         }
         let skip: usize = args.get(3).map_or(0, |s| s.parse().unwrap());
         let f = std::io::BufReader::new(std::fs::File::open(&args[2]).unwrap());
@@ -273,12 +297,14 @@ fn main() {
         libc::signal(libc::SIGBUS, on_segv as usize);
         libc::signal(libc::SIGABRT, on_segv as usize);
         libc::signal(libc::SIGILL, on_segv as usize);
+        libc::signal(libc::SIGVTALRM, on_vtalrm as usize);
     }
     let skip: usize = args.get(3).map_or(0, |s| s.parse().unwrap());
     #[allow(static_mut_refs)]
     unsafe {
         FIRST = skip;
         SKIPOPS = args.get(4).map_or(Vec::new(), |s| s.split(',').map(str::to_string).collect());
+        DEADOPS = args.get(5).map_or(Vec::new(), |s| s.split(',').map(str::to_string).collect());
     }
     let f = std::io::BufReader::new(std::fs::File::open(&args[2]).unwrap());
     let (sa, sb) = (Slot::new(), Slot::new());
